@@ -473,8 +473,61 @@ def lines_family_search(ctx, n_pairs_per_isa, n_random, budget_s):
     return found
 
 
+HL_KERNEL = {"x86": ["vmovapd (%rsi,%rax), %ymm0", "vmovsd 8(%rdx,%rax), %xmm1", "vaddpd %ymm0, %ymm2, %ymm3", "vmovapd %ymm3, (%rdi,%rax)",
+                     "vmovsd 16(%rdx,%rax), %xmm4", "vaddsd %xmm1, %xmm4, %xmm5", "addq $32, %rax"],
+             "aarch64": ["ldr q0, [x1, x3]", "ldr d1, [x2, #8]", "fadd v2.2d, v0.2d, v2.2d", "str q2, [x0, x3]", "ldr d4, [x2, #16]",
+                         "fadd d5, d1, d4", "add x3, x3, #16"]}
+
+
+def hidden_load_models(ctx):
+    """The noise-transparency theorems and C01's model assume `hidden_loads: false` (true of every shipped model when the framework was
+    written): the deprecated hidden-load rewrite ranks loads by LINE-NUMBER distance to a store.  Read the header of every shipped
+    model file as plain YAML; a model that switches the feature on breaks the assumption, and is then exercised with a kernel of the
+    shape the rewrite acts on (more pure loads than stores, a store between two loads) under noise-line insertion."""
+    import models
+    import ruamel.yaml
+    on = []
+    for a in models.nonempty_archs():
+        try:
+            head = ""
+            for line in open(models.yaml_path(a)):
+                if line.startswith("instruction_forms"):
+                    break
+                head += line
+            if ruamel.yaml.YAML(typ="safe").load(head).get("hidden_loads"):
+                on.append(a)
+        except Exception:
+            continue
+    ctx.obligation("assumption of the transparency theorems holds for the shipped data: no model file sets hidden_loads", "assumption", not on,
+                   "hidden_loads is switched on in: %s" % on)
+    ctx.coverage["models_with_hidden_loads"] = on
+    if not on:
+        return
+    work = os.path.join(ctx.scratch, "e2e-hl")
+    os.makedirs(work, exist_ok=True)
+    for a in on:
+        isa = "x86" if a in models.X86 else "aarch64"
+        path = os.path.join(work, "hl_%s.s" % a)
+        with open(path, "w") as f:
+            f.write("\n".join(HL_KERNEL[isa]) + "\n")
+        for rep in range(3):
+            stats, bad = E.check_kernel(ctx, ctx.rng, path, a, 4, work)
+            if stats is None or stats["unstable"]:
+                continue
+            ctx.count(stats["variants"] - 1)
+            for name, diff, replay in bad:
+                vk = name.split("-")[0].split("[")[0]
+                replay["type"] = "e2e"
+                replay["kernel_file_text"] = "\n".join(HL_KERNEL[isa]) + "\n"
+                ctx.violation("e2e-%s-differs-from-kernel-only" % vk, "hidden-load kernel on %s: variant %s %s gives a different report than the "
+                              "kernel-only file: %s" % (a, name, " ".join(replay["extra_args"]), diff), replay)
+            if bad:
+                break
+
+
 def end_to_end(ctx, budget_s, n_pairs, n_noise):
     t0 = time.time()
+    hidden_load_models(ctx)
     kernels, usable, archs, pairs = e2e_pairs(ctx, n_pairs)
     work = os.path.join(ctx.scratch, "e2e")
     os.makedirs(work, exist_ok=True)
